@@ -368,3 +368,8 @@ func TestDecode(t *testing.T) {
 		Rule: "0..12 valid groups with 0..2 groups replaced by non-code-words and an optional remainder of 1..group-1 trits (b1t8: possibly containing an invalid trit): expected (count, error kind) from the reference; accepted inputs must re-encode to themselves; non-trivial = >= 2 groups or a remainder; distinct by (codec, trits)",
 	})
 }
+
+// FuzzGenDecode: the structured generator driven by Go's coverage-guided fuzzer (thorough tier).
+func FuzzGenDecode(f *testing.F) {
+	h.FuzzSub(f, h.Sub[tritsCase]{Prop: "C14", Name: "decode", Gen: genTrits, Check: checkDecode})
+}
